@@ -161,8 +161,18 @@ FailConv(e) ==
           LET T == Truth(e.rb) IN
           IF \A a \in A : LET r == RunZ(f, hd, a) IN r[2] \/ (r[1] = T1) \in T THEN {} ELSE {"unsound"}
        ELSE IF ~SameWidth(e.R, Width(e.t)) THEN {"width"}
-       ELSE LET MR == MemV(e.R) IN
-            IF \A a \in A : LET r == RunZ(f, hd, a) IN r[2] \/ BitsNat(r[1]) \in MR THEN {} ELSE {"unsound"}
+       ELSE LET MR == MemV(e.R)
+                \* values of the term under every assignment that divides by no zero
+                V == {BitsNat(RunZ(f, hd, a)[1]) : a \in {b \in A : ~RunZ(f, hd, b)[2]}}
+                M == P2(Width(e.t))
+            IN (IF V \subseteq MR THEN {} ELSE {"unsound"}) \cup
+               \* SolverVSA (light frontend) on the same expression: eval(n > 2^w), min, max exclude no value
+               (IF e.sv_exc # "" THEN {"solver-exc"} ELSE {}) \cup
+               (IF e.sv_on = 0 THEN {}
+                ELSE (IF V \subseteq {Mod(e.sv_eval[i], M) : i \in 1..Len(e.sv_eval)} THEN {} ELSE {"solver-eval"}) \cup
+                     (IF Len(e.sv_mm) = 0 THEN (IF V = {} THEN {} ELSE {"solver-minmax"})      \* min/max answered None
+                      ELSE IF \A v \in V : Mod(e.sv_mm[1], M) <= v /\ v <= Mod(e.sv_mm[2], M) THEN {}
+                      ELSE {"solver-minmax"}))
 
 \* constraint_to_si: reps = << <<expr term, bound abstract value>>, ... >>
 FailC2si(e) ==
